@@ -34,6 +34,9 @@ class CopyModel:
         self.seen = []
         self.blocked = False  # a guard given as a plain data attribute
 
+    def __len__(self):
+        return 0  # an "empty" model: falsy, yet it is the user's model and must survive a copy
+
     def __eq__(self, other):
         return isinstance(other, CopyModel) and other.pk == self.pk
 
@@ -68,6 +71,8 @@ class CopyMachine(StateMachine):
         self.tag = tag
         self.notes = {"made": tag}
         self.log = []
+        self._secret = ["private", tag]      # user attributes whose names start with an underscore are state too
+        self.__mangled = {"n": 1}
         super().__init__(*args, **kwargs)
 
     def ok(self):
@@ -76,6 +81,9 @@ class CopyMachine(StateMachine):
     def on_go(self, source, target):
         self.log.append((source.id, target.id))
         return (self.tag, target.id)
+
+    def private_view(self):
+        return (self._secret, self.__mangled)
 
 
 class AsyncCopyMachine(StateMachine):
@@ -118,7 +126,8 @@ def tasks(tier):
             for prefix in range(3):
                 out.append({"kind": "sync", "mech": mech, "opts": opts, "prefix": prefix, "suffix": 2 if quick else 3})
         for activated in (False, True):
-            out.append({"kind": "async", "mech": mech, "activated": activated, "suffix": 1 if quick else 2})
+            out.append({"kind": "async", "mech": mech, "activated": activated, "suffix": 1 if quick else 2, "start": None})
+        out.append({"kind": "async", "mech": mech, "activated": False, "suffix": 1, "start": "b"})
     return out
 
 
@@ -127,10 +136,10 @@ BUDGET = {
     "thorough": {"max_secs": 3600, "task_secs": 3000, "path_secs": 60},
 }
 BOUNDS = {
-    "quick": "3-state machine with guarded/fallback candidates, a custom constructor argument and attributes, a model with callbacks, a custom state field, value-based equality and a plain attribute used as a guard (set differently on original and clone after the copy), "
+    "quick": "3-state machine with guarded/fallback candidates, a custom constructor argument and attributes, a falsy (`__len__` == 0) model with callbacks, a custom state field, underscore-prefixed and name-mangled user attributes, events bound onto the model with bind_events_to (and driven through the model on either machine), value-based equality and a plain attribute used as a guard (set differently on original and clone after the copy), "
     "one constructor listener and one listener attached later (providing a guard and an enter callback); options {rtc, allow_event_without_transition, "
     "state_field, start_value} in 4 combinations; copy by copy.deepcopy and by pickle after a history of 0..2 events; then 2 further events distributed over "
-    "original and clone in any interleaving, with symbolic guard values; an async-callback machine copied before and after its initial activation, then driven.",
+    "original and clone in any interleaving, with symbolic guard values; an async-callback machine copied before and after its initial activation (also with a start_value), then driven.",
     "thorough": "3 further events after the copy; 2 on the async machine.",
 }
 OUTSIDE = "machines whose model, listeners or attributes cannot be pickled; copy.copy (shallow); copies taken from inside a callback"
@@ -165,6 +174,8 @@ def run(ctx, params):
             kw["start_value"] = VALUE_OF[start_value]
         sm = CopyMachine(model, **kw)
         sm.add_listener(l1)
+        if o in (0, 3):
+            sm.bind_events_to(model)  # model.go() / model.back() now drive the machine
     cur = "b" if start_value else "a"
     tag = f"{mech}:opts{o}"
     for k in range(params["prefix"]):
@@ -183,6 +194,12 @@ def run(ctx, params):
         raise Mismatch(f"clone-model-field:{tag}", f"clone.model.{field} = {getattr(clone.model, field)!r}")
     if clone.tag != sm.tag or clone.notes != sm.notes or clone.notes is sm.notes or clone.log != sm.log or clone.log is sm.log:
         raise Mismatch(f"clone-attributes:{tag}", "custom attributes are not equal-but-separate copies")
+    try:
+        pv_c, pv_o = clone.private_view(), sm.private_view()
+    except AttributeError as e:
+        raise Mismatch(f"clone-attributes:{tag}", f"an underscore-prefixed user attribute did not survive the copy: {e}")
+    if pv_c != pv_o or pv_c[0] is pv_o[0] or pv_c[1] is pv_o[1]:
+        raise Mismatch(f"clone-attributes:{tag}", f"underscore-prefixed user attributes: original {pv_o!r}, clone {pv_c!r}")
     if clone.allow_event_without_transition != allow or clone.state_field != field or clone.start_value != (VALUE_OF[start_value] if start_value else None):
         raise Mismatch(f"clone-options-lost:{tag}", f"allow={clone.allow_event_without_transition} field={clone.state_field} start_value={clone.start_value}")
     eng = getattr(clone, "_engine", None)
@@ -206,6 +223,7 @@ def run(ctx, params):
     if c0 is None or c1 is None or c0.log != l0.log or c1.log != l1.log:
         raise Mismatch(f"clone-listeners:{tag}", "listener copies are missing or their contents differ from the originals")
     # ---- diverging suffixes
+    use_model_triggers = bool(o == 3 or (o == 0 and params["prefix"] == 1))  # drive through model.go() / model.back()
     curs = {"orig": cur, "clone": cur}
     machines = {"orig": sm, "clone": clone}
     # the two models diverge in a plain attribute that serves as a guard
@@ -227,8 +245,9 @@ def run(ctx, params):
         before_other = (len(lst[other][0].log), len(lst[other][1].log), len(lst[other][2].seen), len(machines[other].log), machines[other].current_state.id)
         before_own = (len(lst[who][0].log), len(lst[who][1].log), len(lst[who][2].seen))
         nxt = step(curs[who], ev, (True if okv else False) and not blocked[who])
+        via_model = use_model_triggers
         try:
-            res = m.send(ev)
+            res = getattr(m.model, ev)() if via_model else m.send(ev)
             fired = True
         except m.TransitionNotAllowed:
             fired = False
@@ -257,7 +276,7 @@ def run(ctx, params):
 def run_async(ctx, params):
     mech = params["mech"]
     with ctx.notracing():
-        sm = AsyncCopyMachine(tag="AS")
+        sm = AsyncCopyMachine(tag="AS", start_value=params.get("start")) if params.get("start") else AsyncCopyMachine(tag="AS")
         if params["activated"]:
             sm.activate_initial_state()
     tag = f"{mech}:async:activated={params['activated']}"
@@ -266,7 +285,8 @@ def run_async(ctx, params):
     ctx.cover(mech)
     if not params["activated"]:
         ctx.cover("copied-before-activation")
-    curs = {"orig": "a", "clone": "a"}
+    first = params.get("start") or "a"
+    curs = {"orig": first, "clone": first}
     machines = {"orig": sm, "clone": clone}
     for k in range(params["suffix"] + 1):
         who = ["clone", "orig"][ctx.choose(2, f"who{k}")] if k else "clone"
